@@ -101,3 +101,9 @@ Example C14_example_error_endpoint :
   expected_callback (EvError 5 3 []) = OnErrorResponse 5 3 [] /\
   visible 100 (OnClientTimeout 100) = OnClientTimeout 100 /\ visible 100 (OnClientTimeout 4294967396) = NoCallback.
 Proof. vm_compute. repeat split. Qed.
+
+Example C14_example_oversize :
+  let e := EvError 1 2 (chars 3 4081) in
+  wf_event e = true /\ Zlength (encode_event_spec e) = 4097 /\
+  adapter_receive Release (protocol_code (event_cmd e)) (encode_event_spec e) = Err TooLong.
+Proof. cbv zeta. repeat split; vm_compute; reflexivity. Qed.
